@@ -2,7 +2,7 @@
    bool/option/list/prod/unit/sumbool map to OCaml's; nat, positive, Z, Q stay the
    extracted inductive types (no Extract Constant / Extract Inductive of our own). *)
 From Coq Require Import Extraction ExtrOcamlBasic QArith List.
-From VOPy Require Import QVec Cone Pareto ParetoQ Rect Ellipsoid FM RectCover Pessimistic Spec Tables Optimize Empirical DesignSpace Metrics Problem Adaptive Constants.
+From VOPy Require Import QVec Cone Pareto ParetoQ Rect Ellipsoid FM RectCover Pessimistic Spec Tables Optimize Empirical DesignSpace Metrics Problem Adaptive Constants Posterior PosteriorTab Hypervolume.
 Extraction Language OCaml.
 Extraction "model.ml"
   QVec.dot QVec.inside QVec.dominates Cone.inside_batch Cone.eye
@@ -16,4 +16,5 @@ Extraction "model.ml"
   Adaptive.children Adaptive.centre
   Constants.alpha_upper_ok Constants.alpha_lower_ok Constants.dstar_lower_ok_strict Constants.dstar_upper_ok
   DesignSpace.ds_update DesignSpace.mkpred
-  Empirical.emp_init Empirical.step Empirical.run Empirical.predict1.
+  Empirical.emp_init Empirical.step Empirical.run Empirical.predict1
+  PosteriorTab.gp_post Hypervolume.hv Hypervolume.fW.
